@@ -34,6 +34,10 @@ theorem gen_customT_eq (u H A : CGrid α n m) : customT u H A = custom u H A := 
 theorem gen_customPadT_eq (u H A : CGrid α n m) : customPadT u H A = customPad u H A := by
   simp only [customPadT, customPad]
 
+/-- `kernel = None`: the kernel is `torch.ones` -/
+theorem gen_customOnesT_eq (u A : CGrid α n m) : customOnesT u A = custom u (const 1) A := by
+  simp only [customOnesT, custom]
+
 theorem fftshiftIdx_ifftshiftIdx (b : Fin k) : fftshiftIdx (ifftshiftIdx b) = b :=
   (fsE k).symm_apply_apply b
 theorem ifftshiftIdx_fftshiftIdx (b : Fin k) : ifftshiftIdx (fftshiftIdx b) = b :=
